@@ -5,7 +5,7 @@
    equivalent one-pass character automaton.  Two input modes:
      MFile: open(path,"rt") -> universal newlines: CR and CRLF arrive as LF, so CR ends a comment;
      MStr : pddl_str.split("\n"): only LF ends a line (and a comment).
-   read_from_tokens(): recursive descent; parse() = read + end-of-input check.
+   read_from_tokens(): recursive descent; parse() = read (no end-of-input check).
    Definitions only (no proofs) so that the model keeps running when a proof breaks. *)
 From Coq Require Import List Ascii String Bool Arith.
 From Verif Require Import Base.Result Base.Str Base.Sexp.
@@ -68,11 +68,19 @@ with rdl (fuel : nat) (ts : list string) (acc : list sexp) : result (sexp * list
       end
   end.
 
+(* parse(): no end-of-input check — tokens after the first complete form are ignored
+   (recorded finding D02; the strict reader is Spec.Layout.parse_tokens_strict). *)
 Definition parse_tokens (ts : list string) : result sexp :=
   match rd (2 * List.length ts + 2) ts with
-  | Ok (e, []) => Ok e
-  | Ok (_, _ :: _) => Err ESyntax                          (* text continues after the top-level form *)
+  | Ok (e, _) => Ok e
   | Err k => Err k
+  end.
+
+(* what was left unread (used to classify inputs of finding D02) *)
+Definition unread_tokens (ts : list string) : list string :=
+  match rd (2 * List.length ts + 2) ts with
+  | Ok (_, rest) => rest
+  | Err _ => []
   end.
 
 Definition parse (m : mode) (s : text) : result sexp := parse_tokens (tokenize m s).
